@@ -193,6 +193,20 @@ NOT_YET = {
 }
 
 
+# additions of later sessions, appended to the claim text of the property
+ADDENDA = {
+    "C02": "Text: strings of <= 3 runes over {a, e-acute, euro, U+1F600, U+0000, U+FEFF}; UTF-8 and UTF-16 byte order mark forms.",
+    "C05": "Large values: all bits_format renderings (byte_array, string, base64, truncate, snippet, hex, md5) of file backed values above the copy buffer sizes on a (start, stop) bit grid.",
+    "C06": "Synthetic seeds include a jpeg with an APP1 extended XMP segment (chunks assembled by offset).",
+    "C09": "Splice law (the three parts of every cut of every depth <= 2 binary in all 6 orders x 10 nesting shapes), insert law (16 member kinds between the halves of every split), range keys law (start/stop/size/length/unit of 9 views of every range in both unit views).",
+    "C10": "array_truncate is an option dimension with the truncation line in the display model; array family of 2..4 and 49..52 elements; JSON floats with both signs, the float64 range edges and non finite values.",
+    "C11": "Capture forms with the definition further along the pipe spine (behind bindings, pipes, labels, in parentheses/try/if/reduce/function bodies); repeat histories (A A, A A A, A B A) over 13 module loading programs on one interpreter and as REPL lines.",
+    "C14": "xmlns: all namespace qualified element trees of <= 3 elements (quick also 4 element trees over one URL) x declaration/use alphabet, round trip in array/object/#seq modes, to_xml read by Go's RawToken reader, harness written text through from_xml.",
+    "C15": "png text chunk edges: compressed texts of 0 and 1 bytes, 79 byte keyword with an empty text.",
+    "C16": "toml: every notation of a value (headers, arrays of tables, inline tables, dotted keys, spellings, layouts). Element order family: containers of n pairwise distinct integers in non monotonic order, n around 10, 20, 100, 110, 256, as arrays and objects in 7 nestings, for all 11 formats.",
+    "C20": "Interrupt inside a blocked input read: file kind (regular, no Seek, pipe, char device, socket, irregular, stdin) x bytes delivered before the blocking read x consumer (tobytes, decode, paste) x driver (Eval at depth 0..2, REPL depth 1..2, command line) x read stays blocked / returns; 456 cases quick.",
+}
+
 def main():
     props = [json.loads(l) for l in open(os.path.join(VERIF, "properties.jsonl"))]
     checks = []
@@ -209,7 +223,7 @@ def main():
                     "evidence_file": f"/verif/evidence/{pid}.json",
                     "replay_cmd_template": f"./check {pid} --replay {{path}}",
                     "engine": c.get("engine", "enum"),
-                    "level_claimed": {"category": c["category"], "text": c["text"], "design_ref": c["design_ref"]},
+                    "level_claimed": {"category": c["category"], "text": c["text"] + (" Later additions: " + ADDENDA[pid] if pid in ADDENDA else ""), "design_ref": c["design_ref"]},
                     "level_note": c["note"],
                     "technique": c["technique"],
                 }
